@@ -9,7 +9,8 @@ THEOREMS = ["accuflux_spec", "breach_nonodata", "mass_conserved", "upstream_area
 RULE = ("all loop-free closed graphs on n<=4 cells (n<=5 thorough) x fields over {-2..3, nodata} (exhaustive for n<=3, "
         "random beyond) x nodata values chosen to collide with partial sums, through streams.accuflux/accuflux_ds with "
         "random topological orders; random forests to 60 cells through FlwdirRaster.accuflux (int64 and integer-valued "
-        "float64 fields, both directions), FlwdirRaster.upstream_area('cell'), Flwdir.upstream_area and the "
+        "float64 fields, both directions; float64 fields whose nodata value is NaN, through FlwdirRaster.accuflux and "
+        "through the two kernels), FlwdirRaster.upstream_area('cell'), Flwdir.upstream_area and the "
         "streams.upstream_area kernel on integer cell sizes; non-trivial = some cell receives flow")
 ASSUMPTIONS = ["float fields: addition is modelled over Z; correspondence uses integer dtypes and integer-valued floats "
                "(exact in binary64); rounding-order effects on general floats are outside the model"]
@@ -17,6 +18,7 @@ ASSUMPTIONS = ["float fields: addition is modelled over Z; correspondence uses i
 
 def cases(tier, rng):
     maxn = 4 if tier == "quick" else 5
+    nker = 0
     for n in range(2, maxn + 1):
         for ds in nets.all_graphs(n):
             if not (nets.is_wf(ds) and nets.is_loopfree(ds) and nets.pits(ds)):
@@ -29,7 +31,12 @@ def cases(tier, rng):
                 fields = [[rng.choice(vals) for _ in range(n)] for _ in range(4 if tier == "quick" else 6)]
             for data in fields:
                 sq = nets.topo_order(ds, rng)
-                yield {"k": 401 if rng.random() < 0.6 else 402, "args": [ds, sq, list(data), [nodata]], "group": f"exh-n{n}-kernel"}
+                c = {"k": 401 if rng.random() < 0.6 else 402, "args": [ds, sq, list(data), [nodata]], "group": f"exh-n{n}-kernel"}
+                yield c
+                nker += 1
+                if nker % 5 == 0 or (n == maxn and nodata in data):
+                    # the same kernel call on a float64 field whose nodata value is NaN (NaN at the nodata cells)
+                    yield dict(c, call={"float_nan": 1}, group=f"exh-n{n}-kernel-float-nan")
     for ds in nets.structured(rng):
         if nets.is_loopfree(ds):
             n = len(ds)
@@ -78,6 +85,17 @@ def cases(tier, rng):
                    "group": f"rand-{api}" + ("-area" if w else "")}
         else:
             yield {"k": 404, "args": [ds, sq, [1] * n], "call": {"api": api}, "group": f"rand-{api}"}
+    # float fields whose nodata value is NaN (the usual missing value of float rasters): the case carries the integer-valued
+    # field with a sentinel at the nodata cells (model and oracle as above); impl puts NaN there and passes nodata=np.nan
+    for t in range(nrand // 5):
+        n = rng.randint(2, 60 if t % 3 else 10)
+        ds = nets.random_forest(rng, n, p_nodata=rng.choice([0, 0.1, 0.3]))
+        nodata = rng.choice([-9999, -1, 7, 0])
+        pn = rng.choice([0, 0.1, 0.25])
+        data = [nodata if rng.random() < pn else rng.randint(-3, 9) for _ in range(n)]
+        api = rng.choice(["accuflux_float_nan", "accuflux_down_float_nan"])
+        yield {"k": 402 if "down" in api else 401, "args": [ds, nets.topo_order(ds), data, [nodata]], "call": {"api": api},
+               "group": f"rand-{api}"}
 
 
 def impl(case):
@@ -99,9 +117,46 @@ def impl(case):
             return [[-3], ["non-integer"]]
         return [[int(x) for x in v]]
 
+    def to_nan(vals, sentinel):
+        """the integer-valued field as float64 with NaN at the cells that hold the sentinel"""
+        d = np.array(vals, dtype=np.float64)
+        d[np.array([x == sentinel for x in vals], dtype=bool)] = np.nan
+        return d
+
+    def from_nan(st, v, vals, sentinel):
+        """NaN in the result back to the sentinel; a NaN anywhere else than at the nodata cells of the input fails the case"""
+        if st != "ok":
+            return [[-2], [st]]
+        v = np.array(v, dtype=np.float64).ravel()
+        isn = np.isnan(v)
+        if v.size != len(vals) or not np.array_equal(isn, np.array([x == sentinel for x in vals], dtype=bool)):
+            return [[-3], ["NaN outside the nodata cells"]]
+        v[isn] = sentinel
+        return outl(st, v)
+
+    if api is None and call.get("float_nan"):
+        fn = streams.accuflux if k == 401 else streams.accuflux_ds
+        data = to_nan(a[2], a[3][0])
+        before = data.copy()
+        st, v = call_impl(fn, ds_array(ds), np.array(sq, dtype=np.int32), data, np.nan)
+        if not np.array_equal(before, data, equal_nan=True):
+            return [[-4], ["input mutated"]]
+        if st == "ok" and v.dtype != np.float64:
+            return [[-3], [str(v.dtype)]]
+        return from_nan(st, v, a[2], a[3][0])
     if api is None:
         fn = streams.accuflux if k == 401 else streams.accuflux_ds
         return outl(*call_impl(fn, ds_array(ds), np.array(sq, dtype=np.int32), np.array(a[2], dtype=np.int64), a[3][0]))
+    if api in ("accuflux_float_nan", "accuflux_down_float_nan"):
+        flw = make_raster(ds)
+        data = to_nan(a[2], a[3][0]).reshape(1, n)
+        before = data.copy()
+        st, v = call_impl(flw.accuflux, data, nodata=np.nan, direction="down" if "down" in api else "up")
+        if not np.array_equal(before, data, equal_nan=True):
+            return [[-4], ["input mutated"]]
+        if st == "ok" and (v.shape != flw.shape or v.dtype != np.float64):
+            return [[-3], [str(v.dtype)]]
+        return from_nan(st, v, a[2], a[3][0])
     if api.startswith("accu"):
         flw = make_raster(ds)
         dt = np.dtype(call["dtype"]) if "dtype" in call else (np.float64 if "float" in api else np.int64)
